@@ -55,6 +55,33 @@ def need_rank(ex, state, arr, line, want=4):
 
 
 def getitem(ex, state, arr, idx, line, for_store=False):
+    res = _getitem(ex, state, arr, idx, line, for_store)
+    ro = roles_of(arr) if isinstance(arr, SArr) else None
+    if ro is not None and isinstance(res, SArr):
+        items = idx if (isinstance(idx, tuple) and not is_tag(idx, 'slice')) else (idx,)
+        if len(arr.shape) == 5 and not is_conc_int(arr.ndim):
+            ro = ro[:5 if sum(1 for i_ in items if not isinstance(i_, SNone)) == 5 else 4]      # a five-slot core used as a 4-d / 5-d array
+        out, ax, ok = [], 0, True
+        for it in items:
+            if isinstance(it, SNone):
+                out.append('1')
+                continue
+            if ax >= len(ro):
+                ok = False
+                break
+            if is_tag(it, 'slice'):
+                out.append(ro[ax])
+            elif isinstance(it, (SArr, SList)):
+                ok = False
+                break
+            ax += 1
+        if ok:
+            out += list(ro[ax:])
+            set_roles(res, out)
+    return res
+
+
+def _getitem(ex, state, arr, idx, line, for_store=False):
     """basic + advanced indexing.  Returns the selected sub-array (a view for basic indexing, a fresh array otherwise)."""
     if not isinstance(idx, tuple) or (is_tag(idx, 'slice')):
         idx = (idx,)
@@ -237,14 +264,38 @@ def elementwise(ex, state, operands, line):
     return res
 
 
+# ----------------------------------------------------------------------------------------------------------------------
+# ghost index roles: which leg of the sesquilinear form  <bra| A |ket>  an array axis belongs to
+#   K / B  rank axis of a ket (plain) / bra (conjugated) solution core,  O  rank axis of an operator (or right-hand side) core,
+#   k / b  physical axis of a ket / bra core,  r / c  row / column axis of an operator core (a right-hand side core has r),
+#   1  an axis of length 1 introduced by indexing.  None: unknown.  Contractions may only pair the legs listed in ROLE_PAIRS.
+ROLE_PAIRS = {('K', 'K'), ('B', 'B'), ('O', 'O'), ('k', 'c'), ('c', 'k'), ('b', 'r'), ('r', 'b'), ('1', '1')}
+ROLE_CONJ = {'K': 'B', 'B': 'K', 'k': 'b', 'b': 'k'}
+
+
+def roles_of(a):
+    return a.__dict__.get('roles') if isinstance(a, SArr) else None
+
+
+def set_roles(a, roles):
+    if isinstance(a, SArr) and roles is not None and len(roles) == len(a.shape):
+        a.roles = tuple(roles)
+    return a
+
+
 def conj(ex, state, a, line):
     a = need_rank(ex, state, a, line)
-    return new_arr(state, a.shape, a.cplx)
+    r = new_arr(state, a.shape, a.cplx)
+    ro = roles_of(a)
+    if ro is not None:
+        set_roles(r, [ROLE_CONJ.get(x, x) if x is not None else None for x in ro])
+    return r
 
 
 def copy(ex, state, a, line):
     a = need_rank(ex, state, a, line)
     r = new_arr(state, a.shape, a.cplx, a.kind, flags=dict(a.flags))
+    set_roles(r, roles_of(a))
     return r
 
 
@@ -263,6 +314,9 @@ def transpose(ex, state, a, axes, line):
         res.flags = dict(a.flags)
     if nd == 4 and axes == [3, 1, 2, 0]:
         res.flags['lorth'], res.flags['rorth'] = z3.BoolVal(False), z3.BoolVal(False)
+    ro = roles_of(a)
+    if ro is not None:
+        set_roles(res, [ro[k] for k in axes])
     return res
 
 
@@ -287,6 +341,11 @@ def reshape(ex, state, a, newshape, line):
     if len(a.shape) == 4 and len(newshape) == 2:
         res.flags['isocols'] = z3.And(a.flags['lorth'], newshape[1] == a.shape[3])
         res.flags['isorows'] = z3.And(a.flags['rorth'], newshape[0] == a.shape[0])
+    ro = roles_of(a)
+    if ro is not None:
+        res.merged_from = tuple(ro)         # the axes this array was merged from (checked by contracts of the micro systems)
+        if len(newshape) == len(a.shape):
+            set_roles(res, ro)
     return res
 
 
@@ -326,6 +385,13 @@ def tensordot(ex, state, a, b, axes, line):
         ex.ctx.oblige(state, 'tensordot-shape', line, a.shape[x] == b.shape[y], 'shape mismatch for sum (axis %d of a, axis %d of b)' % (x, y))
     shape = [s for k, s in enumerate(a.shape) if k not in ax_a] + [s for k, s in enumerate(b.shape) if k not in ax_b]
     res = new_arr(state, shape, z3.simplify(z3.Or(a.cplx, b.cplx)))
+    ra, rb = roles_of(a), roles_of(b)
+    if ra is not None and rb is not None:
+        for x, y in zip(ax_a, ax_b):
+            if ra[x] is not None and rb[y] is not None:
+                ex.ctx.oblige(state, 'sesquilinear-structure', line, z3.BoolVal((ra[x], rb[y]) in ROLE_PAIRS),
+                              'axis %d (%s) of the first array is contracted with axis %d (%s) of the second: these legs of <bra|A|ket> do not pair' % (x, ra[x], y, rb[y]))
+        set_roles(res, [r for k, r in enumerate(ra) if k not in ax_a] + [r for k, r in enumerate(rb) if k not in ax_b])
     # L-iso (product): (k x r) with orthonormal rows times a right-orthonormal core (r, m, n, r') is right-orthonormal;
     # a left-orthonormal core (r, m, n, r') times (r' x k) with orthonormal columns is left-orthonormal
     if len(a.shape) == 2 and len(b.shape) == 4 and ax_a == [1] and ax_b == [0]:
